@@ -240,11 +240,14 @@ class World:
         elif kind == "connection":
             def sub(*, connected):
                 w.ev("notify", who=who, connected=bool(connected))
-                pending = announce_send() if (sends and connected) else None
+                pending = announce_send() if (sends and connected and not sends.get("only_on_disconnect")) else None
+                burst = int(sends.get("on_disconnect_n", 0)) if (sends and not connected) else 0
 
                 async def run():
                     if pending:
                         await send_on_connect(*pending)
+                    for _ in range(burst):       # an application that reacts to the loss of the link by queueing commands
+                        await send_on_connect(*announce_send())
                     await behave()
                 return run()
         else:  # update subscribers: AirTouch (str id), AC (int), zone (int)
@@ -294,7 +297,7 @@ class World:
         if c is None or c not in pend:
             self.ev("skipped", what="resolve")
             return
-        self.net.resolve_c(c, op["how"], op.get("exc"), op.get("pause_in", 0))
+        self.net.resolve_c(c, op["how"], op.get("exc"), op.get("pause_in", 0), op.get("fault_in", 0))
 
     def op_resolve_all(self, op):
         pend = self.net.pending()
